@@ -71,12 +71,44 @@ def require_plain_buffers(ctx) -> None:
 
         try:
             buffer_plain(ctx, _Null())
-            err = ""
+            err = _buffer_to_generator(ctx)
         except AnalysisError as e:
             err = str(e)
         ctx._buffer_shape = err
     if err:
         raise AnalysisError(f"sleep buffer container not modelled: {err}")
+
+
+def _buffer_to_generator(ctx) -> str:
+    """The buffer (or one of its dicts) handed to a generator function / generator-based context manager of the
+    repository that could not be written out into its caller: what that helper removes, and when relative to the
+    caller's sends, is not visible to the rules that look at one function body."""
+    from .common import callee_names
+
+    for f in ctx.prog.all_functions():
+        fi = ctx.inl(f)
+        for n in ctx.own_nodes(fi):
+            if not (isinstance(n, ast.Call) and isinstance(n.func, (ast.Name, ast.Attribute))):
+                continue
+            args = list(n.args) + [k.value for k in n.keywords]
+            if not any((isinstance(x, ast.Name) and x.id in ("message_buffer", "_message_buffer")) or (isinstance(x, ast.Attribute) and x.attr in BUFFERS + ("_message_buffer",)) for a in args for x in ast.walk(a)):
+                continue
+            try:
+                names = callee_names(ctx, fi, n)
+            except AnalysisError:
+                continue
+            for nm in sorted(names):
+                try:
+                    h = ctx.func(nm)
+                except (AnalysisError, KeyError):
+                    continue
+                if h is None or h.fq != nm:
+                    continue
+                is_gen = any(isinstance(x, (ast.Yield, ast.YieldFrom)) for x in ctx.own_nodes(h)) and not h.is_async
+                is_cm = any(d.split("(")[0].rsplit(".", 1)[-1] in ("contextmanager", "asynccontextmanager") for d in h.decorator_names)
+                if (is_gen or is_cm) and any(isinstance(x, (ast.Yield, ast.YieldFrom)) for x in ctx.own_nodes(h)):
+                    return f"the sleep buffer is handed to the generator-based helper {h.qualname} (`{norm(n)[:60]}` in {f.qualname}), which could not be written out into its caller"
+    return ""
 
 
 def prepare(ctx) -> None:
@@ -383,6 +415,13 @@ def flush_functions(ctx: Ctx, attr: str = "set_messages") -> list[FuncInfo]:
             continue
         if f.nested and any(_reads_direct(ctx, g_, attr) for g_ in f.nested.values()):
             # the snapshot / the forgetting live in nested helper functions of the flush: judged written out
+            fi = ctx.inl(f)
+            if fi is not f and _reads_direct(ctx, fi, attr):
+                out.append(fi)
+                continue
+        if not _reads_direct(ctx, f, attr):
+            # the entries are handed out by a bookkeeping helper (a generator method of the buffer record ...): judged
+            # with that helper written out when that is possible
             fi = ctx.inl(f)
             if fi is not f and _reads_direct(ctx, fi, attr):
                 out.append(fi)
@@ -861,6 +900,14 @@ def buffer_plain(ctx, chk, rule: str = "BUFFER-PLAIN") -> None:
                         if isinstance(t, ast.Attribute) and t.attr in BUFFERS and norm(t.value) == "self":
                             cands.append((c, t.attr, node.value))
     for c, name, value in cands:
+        # the declared entry type: one message per key (a dict of per-node dicts / lists of messages is another layout)
+        for b_ in c.node.body:
+            if isinstance(b_, ast.AnnAssign) and isinstance(b_.target, ast.Name) and b_.target.id == name and isinstance(b_.annotation, ast.Subscript):
+                sl = b_.annotation.slice
+                vt = sl.elts[-1] if isinstance(sl, ast.Tuple) and sl.elts else sl
+                head = norm(vt.value if isinstance(vt, ast.Subscript) else vt).rsplit(".", 1)[-1]
+                if head in ("dict", "Dict", "list", "List", "set", "Set", "defaultdict", "DefaultDict", "OrderedDict", "deque", "tuple", "Tuple", "Mapping", "MutableMapping", "Sequence"):
+                    raise AnalysisError(f"{c.fq}::{name}: the entries of the buffer are declared as containers (`{norm(b_.annotation)[:70]}`), not as one message per (node, child, type) key - this layout is not modelled")
         if True:
             n += 1
             chk.instance(rule)
